@@ -87,6 +87,7 @@ Forms ==
   }
 
 \* number of defined first bytes: 4004 has 1 (NOP) + 15*16 (JCN..LDM rows 1..D) + 16 (E group) + 14 (F group)
+After(cpu, prev, form, units) == units
 Skipped(cpu, form, ops) == FALSE
 Unjudged(cpu, form, ops) == FALSE
 DefinedCount(cpu) == IF cpu = "4004" THEN 1 + 13 * 16 + 16 + 14 ELSE 15 + 13 * 16 + 16 + 14
